@@ -626,6 +626,12 @@ End WithState.
 
 Arguments heads {S}. Arguments fronts {S}. Arguments gtick {S}. Arguments cor {S}.
 Arguments faults {S}. Arguments faulted_heads {S}. Arguments rt_fault {S}. Arguments next_gen {S}.
+Arguments ls_rt {S}. Arguments ls_prov {S}. Arguments ls_log {S}.
+Arguments COk {S}. Arguments CErr {S}. Arguments CPanic {S}.
+Arguments SCont {S}. Arguments SFail {S}. Arguments SPanic {S}. Arguments SOuter {S}.
+Arguments LDone {S}. Arguments LFail {S}. Arguments LPanic {S}. Arguments LOuter {S}.
+Arguments ResOk {S}. Arguments ResUnknown {S}. Arguments ResAlready {S}.
+Arguments cp_gtick {S}. Arguments cp_heads {S}. Arguments cp_fronts {S}.
 
 (* ------------------------------------------------------------------ executable instance
    The state is the list of committed batches; the engine is a table: ingress id -> behaviour.
@@ -634,9 +640,9 @@ Arguments faults {S}. Arguments faulted_heads {S}. Arguments rt_fault {S}. Argum
 Definition tstate := list N.
 Definition table_commit (tbl : list (N * N)) (s : tstate) (batch : list N) : cres tstate :=
   let beh := map (fun id => opt_default 0 (find N.compare id tbl)) batch in
-  if existsb (N.eqb 3) beh then CPanic _ (s ++ batch)
-  else if existsb (N.eqb 2) beh then CErr _ 2 (s ++ batch)
-  else COk _ (s ++ batch) (lenN s) (lenN batch).
+  if existsb (N.eqb 3) beh then CPanic (s ++ batch)
+  else if existsb (N.eqb 2) beh then CErr 2 (s ++ batch)
+  else COk (s ++ batch) (lenN s) (lenN batch).
 
 (* ------------------------------------------------------------------ scenario driver (public API calls in sequence) *)
 
@@ -685,9 +691,9 @@ Definition run_op (st : rt S * provmap) (o : op) : (rt S * provmap) * oout :=
                  end)
   | OpResolve g rid =>
       match resolve_fault S r g rid with
-      | ResOk _ r' => ((r', p), (3, 0, 0, []))
-      | ResUnknown _ => ((r, p), (3, 1, 0, []))
-      | ResAlready _ => ((r, p), (3, 2, 0, []))
+      | ResOk r' => ((r', p), (3, 0, 0, []))
+      | ResUnknown => ((r, p), (3, 1, 0, []))
+      | ResAlready => ((r, p), (3, 2, 0, []))
       end
   | OpElig k b =>
       match set_eligibility S r k b with
